@@ -291,6 +291,12 @@ func patience(d time.Duration) time.Duration {
 	return d
 }
 
+// the box is shared: when the per-user inotify instances (128) are used up by other processes the
+// watcher cannot be created — an environment condition, not a property failure
+func envExhausted(err error) bool {
+	return err != nil && (strings.Contains(err.Error(), "too many open files") || strings.Contains(err.Error(), "no space left on device"))
+}
+
 func closeWithDeadline(w fswallet.Wallet, d time.Duration) bool {
 	d = patience(d)
 	done := make(chan struct{})
@@ -390,6 +396,11 @@ func runHistory(r *cv.Rand, cfg walletCfg, pool []*keyT, slow *bool, st *cv.Stat
 	}
 	h.w = w
 	if err := w.Initialize(h.ctx); err != nil {
+		if envExhausted(err) {
+			st.Hit("env/inotify-instances-exhausted (history skipped)")
+			_ = closeWithDeadline(w, 5*time.Second)
+			return "", nil, nil, false
+		}
 		h.fail("Initialize failed on an existing directory", err.Error())
 		return "", nil, h.fails, false
 	}
